@@ -74,6 +74,11 @@ func concInstances(seed int64) []instance {
 			return &instRun{
 				step: func(k int) {
 					var e error
+					defer func() {
+						if p := recover(); p != nil {
+							errs = append(errs, fmt.Sprint("panic: ", p))
+						}
+					}()
 					switch k {
 					case 0:
 						w, e = open(&buf)
@@ -101,6 +106,11 @@ func concInstances(seed int64) []instance {
 			return &instRun{
 				step: func(k int) {
 					var e error
+					defer func() {
+						if p := recover(); p != nil {
+							errs = append(errs, fmt.Sprint("panic: ", p))
+						}
+					}()
 					switch k {
 					case 0:
 						r, e = open(bytes.NewReader(data))
@@ -120,7 +130,20 @@ func concInstances(seed int64) []instance {
 			}
 		}}
 	}
+	// incompressible data first (stored as raw chunks, coder state rolled back), then compressible
+	// data continuing in the same block/stream; many small blocks with different check types
+	rawThenText := append(MakeData("random", 70000, seed+2), text...)
 	return []instance{
+		mkWriter("xz-writer-raw-then-text", func(w io.Writer) (wcl, error) {
+			return XZCfg{LC: 3, PB: 2, DictCap: 65536, BufSize: 4096, Check: 4}.lib().NewWriter(w)
+		}, rawThenText, false),
+		mkWriter("lzma2-writer-raw-then-text", func(w io.Writer) (wcl, error) { return lzma.Writer2Config{DictCap: 65536}.NewWriter2(w) }, rawThenText, true),
+		mkWriter("xz-writer-crc32-blocks", func(w io.Writer) (wcl, error) {
+			return XZCfg{LC: 3, PB: 2, DictCap: 4096, BufSize: 4096, Check: 1, BlockSize: 700}.lib().NewWriter(w)
+		}, text, false),
+		mkWriter("xz-writer-none-blocks", func(w io.Writer) (wcl, error) {
+			return XZCfg{LC: 3, PB: 2, DictCap: 4096, BufSize: 4096, Check: -1, BlockSize: 900}.lib().NewWriter(w)
+		}, text, false),
 		mkWriter("xz-writer-ht", func(w io.Writer) (wcl, error) {
 			return XZCfg{LC: 3, PB: 2, DictCap: 65536, BufSize: 4096, Check: 4, BlockSize: 20000}.lib().NewWriter(w)
 		}, text, false),
@@ -128,7 +151,9 @@ func concInstances(seed int64) []instance {
 			return XZCfg{LC: 0, LP: 2, PB: 1, DictCap: 65536, BufSize: 273, Check: 10, Matcher: 1}.lib().NewWriter(w)
 		}, rnd, false),
 		mkWriter("lzma2-writer", func(w io.Writer) (wcl, error) { return lzma.Writer2Config{DictCap: 65536}.NewWriter2(w) }, rnd, true),
-		mkWriter("lzma-writer", func(w io.Writer) (wcl, error) { return lzma.WriterConfig{DictCap: 65536, Matcher: lzma.BinaryTree}.NewWriter(w) }, text, false),
+		mkWriter("lzma-writer", func(w io.Writer) (wcl, error) {
+			return lzma.WriterConfig{DictCap: 65536, Matcher: lzma.BinaryTree}.NewWriter(w)
+		}, text, false),
 		mkReader("xz-reader", func(r io.Reader) (io.Reader, error) { return xz.NewReader(r) }, xzData, len(text)),
 		mkReader("lzma2-reader", func(r io.Reader) (io.Reader, error) { return lzma.Reader2Config{DictCap: 65536}.NewReader2(r) }, l2buf.Bytes(), len(rnd)),
 		mkReader("lzma-reader", func(r io.Reader) (io.Reader, error) { return lzma.NewReader(r) }, albuf.Bytes(), len(text)),
@@ -167,16 +192,68 @@ func runInterleaving(insts []instance, sched []int) []string {
 	return res
 }
 
-// RaceWork is the free-running workload executed by the race-enabled binary.
-func RaceWork(seed int64, rounds int) {
+// ConcRef runs instance #idx alone (it is called in a fresh process per instance, so that
+// no other instance has touched any process-wide state) and prints its result.
+func ConcRef(seed int64, idx int) {
+	insts := concInstances(seed)
+	if idx < 0 || idx >= len(insts) {
+		fmt.Println("CONCREF bad index")
+		return
+	}
+	in := insts[idx]
+	r := in.newRun()
+	for k := 0; k < in.calls; k++ {
+		r.step(k)
+	}
+	fmt.Printf("CONCREF %s\n", r.result())
+}
+
+// freshRefs computes every instance's stand-alone result in its own process.
+func freshRefs(c *hx.Ctx, n int) []string {
+	self, err := os.Executable()
+	if err != nil {
+		c.Inconclusive("cannot find the driver binary: %v", err)
+		return nil
+	}
+	out := make([]string, n)
+	var wg sync.WaitGroup
+	for i := 0; i < n; i++ {
+		wg.Add(1)
+		go func(i int) {
+			defer wg.Done()
+			b, err := exec.Command(self, "concref", fmt.Sprint(c.Seed), fmt.Sprint(i)).CombinedOutput()
+			s := strings.TrimSpace(string(b))
+			if err == nil && strings.HasPrefix(s, "CONCREF ") && !strings.Contains(s, "\n") {
+				out[i] = strings.TrimPrefix(s, "CONCREF ")
+			}
+		}(i)
+	}
+	wg.Wait()
+	for i, s := range out {
+		if s == "" {
+			c.Inconclusive("stand-alone reference run of instance %d failed", i)
+			return nil
+		}
+	}
+	return out
+}
+
+// RaceWork is the free-running workload executed by the race-enabled binary. refFile, if
+// given, holds the stand-alone results computed in fresh processes (JSON list).
+func RaceWork(seed int64, rounds int, refFile string) {
 	insts := concInstances(seed)
 	want := make([]string, len(insts))
-	for i, in := range insts {
-		r := in.newRun()
-		for k := 0; k < in.calls; k++ {
-			r.step(k)
+	if b, err := os.ReadFile(refFile); err == nil && json.Unmarshal(b, &want) == nil && len(want) == len(insts) {
+		// references from fresh processes
+	} else {
+		want = make([]string, len(insts))
+		for i, in := range insts {
+			r := in.newRun()
+			for k := 0; k < in.calls; k++ {
+				r.step(k)
+			}
+			want[i] = r.result()
 		}
-		want[i] = r.result()
 	}
 	var wg sync.WaitGroup
 	var mu sync.Mutex
@@ -236,6 +313,10 @@ func C14(c *hx.Ctx) {
 		return out
 	}
 	insts := concInstances(c.Seed)
+	fresh := freshRefs(c, len(insts))
+	if fresh == nil {
+		return
+	}
 	seq := make([]string, len(insts))
 	for i, in := range insts {
 		r := in.newRun()
@@ -243,6 +324,10 @@ func C14(c *hx.Ctx) {
 			r.step(k)
 		}
 		seq[i] = r.result()
+		if seq[i] != fresh[i] {
+			c.Violation(map[string]string{"kind": "depends-on-process-history", "instance": in.name}, fmt.Sprintf("%s: run after other instances in the same process it produces %s, alone in a fresh process %s", in.name, seq[i], fresh[i]), map[string]any{"instance": in.name, "ran_before": i})
+		}
+		seq[i] = fresh[i]
 		// determinism of the sequential run itself
 		r2 := in.newRun()
 		for k := 0; k < in.calls; k++ {
@@ -321,9 +406,12 @@ func C14(c *hx.Ctx) {
 		c.Inconclusive("cannot build the race-enabled worker: %v\n%.600s", err, out)
 		return
 	}
+	refFile := filepath.Join(c.Scratch, "conc-refs.json")
+	rb, _ := json.Marshal(fresh)
+	os.WriteFile(refFile, rb, 0o644)
 	races := 0
 	for _, procs := range []int{2, 4, 16} {
-		cmd := exec.Command(bin, "racework", fmt.Sprint(c.Seed), fmt.Sprint(c.Pick(2, 12)))
+		cmd := exec.Command(bin, "racework", fmt.Sprint(c.Seed), fmt.Sprint(c.Pick(2, 12)), refFile)
 		cmd.Env = append(os.Environ(), fmt.Sprintf("GOMAXPROCS=%d", procs), "GORACE=halt_on_error=0 exitcode=66")
 		out, err := cmd.CombinedOutput()
 		s := string(out)
